@@ -106,6 +106,10 @@ func checkC16(p *core.Program, r *core.Report) {
 	r.Count("variable_index_sites", varIndexRule(p, r, fns, "R11", c16VarIndexAllowed))
 	r.Rule("R6", "in the generic-JSON migrations, every write into a map that comes from a discarded-ok assertion on decoded JSON (directly or through an accessor such as GetLanguageTranslation) is controlled by a nil / ok test")
 	c16R6(p, r, fns)
+	r.Rule("R14", "the expression rewrites of the 13.x migrations hand every template to the rewriter and keep what it returns (imported from C11/R4)")
+	importObligations(p, r, "C11", map[string]bool{"R4": true}, "R14", "a migration does not rewrite every reference it should, so a template evaluates differently after it")
+	r.Rule("R15", "a digit test covers every digit: where these packages classify a byte or rune of the input by a range that ends at '9', the range starts at '0' (a number that begins with 0 — `0`, `0.5` — is a number; StringOrNumber otherwise rejects a valid legacy definition)")
+	c16R15(p, r, fns)
 	r.Rule("R13", "null elements are rejected at load: every JSON member of a definition struct (flow, node, action, router, case, wait types) that is a slice or map of pointers to structs carries `dive,required` in its validate tag — the repository's idiom (nodes, exits) for turning `[null]` into a validation error — since the code that later ranges over the slice dereferences each element")
 	c16R13(p, r)
 	r.Rule("R12", "a truncation is decided by the value it cuts: where a call that truncates X to N characters (stringsx.Truncate, directly or through a local helper) is controlled by a length comparison, a comparison against N measures X itself, and a comparison of len(X) uses a bound of at most N")
@@ -1330,4 +1334,47 @@ func c16R13(p *core.Program, r *core.Report) {
 		}
 	}
 	r.Require("pointer_collection_members", n, 7)
+}
+
+// ---------------------------------------------------------------------------------------------- R15
+
+func c16R15(p *core.Program, r *core.Report, fns []*ssa.Function) {
+	n := 0
+	for _, fn := range fns {
+		ord := 0
+		core.EachInstr(fn, false, func(_ *ssa.Function, in ssa.Instruction) {
+			hi, ok := in.(*ssa.BinOp)
+			if !ok || (hi.Op != token.LEQ && hi.Op != token.LSS) {
+				return
+			}
+			k, ok := core.ConstInt(hi.Y)
+			if !ok || !((hi.Op == token.LEQ && k == '9') || (hi.Op == token.LSS && k == '9'+1)) {
+				return
+			}
+			if bt, ok := hi.X.Type().Underlying().(*types.Basic); !ok || (bt.Kind() != types.Uint8 && bt.Kind() != types.Int32) {
+				return
+			}
+			// the lower bound tested on the same value in this function
+			core.EachInstr(fn, false, func(_ *ssa.Function, in2 ssa.Instruction) {
+				lo, ok := in2.(*ssa.BinOp)
+				if !ok || lo.X != hi.X || (lo.Op != token.GEQ && lo.Op != token.GTR) {
+					return
+				}
+				lk, ok := core.ConstInt(lo.Y)
+				if !ok {
+					return
+				}
+				if lo.Op == token.GTR {
+					lk++
+				}
+				if lk < '0' || lk > '9' {
+					return
+				}
+				n++
+				ord++
+				r.Check(lk == '0', "R15", fmt.Sprintf("%s/digit-range#%d", core.FuncName(fn), ord), p.Pos(lo.Pos()), "'0'..'9'", fmt.Sprintf("the digit range tested here starts at %q, not '0': input whose first digit is below it is not recognised as a number", rune(lk)))
+			})
+		})
+	}
+	r.Count("digit_range_tests", n) // zero when the test is written with unicode.IsDigit: nothing to check then
 }
